@@ -380,4 +380,23 @@ example : (run init witnessFault).thrown = true ∧ (run init witnessFault).heap
     (run init [.new .vec 4 0 1, .view 0 (.slice 1 3 1), .view 0 (.slice 0 2 1), .failNext 1, .assignCopy 1 2]).thrown = true := by
   decide
 
+/-- EMPTY SELECTIONS ARE CANONICAL.  A rank-2 `Array` view one of whose extents is zero (`M(range(2,1), __)`, `M(__, range(1,0))`)
+    has BOTH extents zero — the state `resize` and `clear` give an array without elements, the one `empty()` recognises — and it
+    is otherwise the view that was asked for (same data, same Storage: it still holds exactly the one link `viewCtor` takes, and
+    releases it like any other view).  A view without a zero extent is exactly what the member function computed. -/
+theorem C07_view_zero_extent_canonical (b : Obj) (v : ViewSpec) :
+    (v.kind = .mat → (v.d0 = 0 ∨ v.d1 = 0) → (viewObject b v).len = 0 ∧ (viewObject b v).len1 = 0) ∧
+    ((v.kind ≠ .mat ∨ (v.d0 ≠ 0 ∧ v.d1 ≠ 0)) → (viewObject b v).len = v.d0.toNat ∧ (viewObject b v).len1 = v.d1.toNat) ∧
+    (viewObject b v).storage = b.storage ∧ (viewObject b v).off = b.off + v.delta.toNat := by
+  refine ⟨?_, ?_, rfl, rfl⟩
+  · intro hk hz
+    rcases hz with hz | hz <;> simp [viewObject, hk, hz]
+  · intro h
+    rcases h with h | ⟨h0, h1⟩
+    · cases hk : v.kind <;> simp_all [viewObject]
+    · simp [viewObject, h0, h1]
+
+example : (viewObject { kind := .mat, len := 3, len1 := 4, stride := 4, stride1 := 1 }
+            { kind := .mat, delta := 8, d0 := 0, d1 := 4, s0 := 4, s1 := 1 }).len1 = 0 := by decide
+
 end Adept.Storage
